@@ -1322,6 +1322,14 @@ class Interp:
 
     def st_For(self, s, st):
         def then(s2, it):
+            # a loop over a sequence known to be empty runs zero times
+            if it in (('list', ()), ('tuple', ()), ('dict', ())) or (
+                    is_const(it) and isinstance(
+                        it[1], (tuple, list, str, bytes, dict, frozenset))
+                    and len(it[1]) == 0):
+                if s.orelse:
+                    return self.exec_block(s.orelse, s2)
+                return [(s2, 'normal', None)]
             if self.unroll_const:
                 ok, seq = try_py(it)
                 if ok and isinstance(seq, (list, tuple)) and len(seq) <= 64:
@@ -1920,6 +1928,10 @@ class Interp:
             if exc is not None:
                 out.append((s2, None, exc))
                 continue
+            un = self._unroll_comp(n, s2, it, elts, ckind)
+            if un is not None:
+                out.append((s2, un, None))
+                continue
             inner = s2.copy()
             inner.trace = ()
             lid = (self.fi.qualname, n.lineno, next(self._loop_ids))
@@ -1972,6 +1984,55 @@ class Interp:
                 s2.emit(('comp', lid, inner.trace))
             out.append((s2, t, None))
         return out
+
+    def _unroll_comp(self, n, st, it, elts, ckind):
+        """A comprehension over a short sequence whose elements are all
+        known terms (a tuple of classes, of parameters, ...), with pure
+        element expressions: evaluated once per element.
+        `{cls._messageType: cls for cls in (A, B, C)}` is the dict it
+        denotes."""
+        if len(n.generators) != 1 or ckind == 'gen' or \
+                kind(it) not in ('tuple', 'list'):
+            return None
+        items = [x[1] if kind(x) == 'item' else x for x in it[1]]
+        if not (0 < len(items) <= 16) or any(
+                kind(x) in ('splice', 'prefix', 'starseq') for x in it[1]):
+            return None
+        g = n.generators[0]
+        rows = []
+        for x in items:
+            s_i = st.copy()
+            s_i.trace = ()
+            r = self.assign(g.target, x, s_i, n)
+            if len(r) != 1 or r[0][1] != 'normal':
+                return None
+            s_i = r[0][0]
+            keep = True
+            for c in g.ifs:
+                rr = [y for y in self.eval(c, s_i) if y[2] is None]
+                if len(rr) != 1:
+                    return None
+                s_i = rr[0][0]
+                tv = self.decide(rr[0][1], s_i)
+                if tv is None:
+                    return None
+                keep = keep and tv
+            vals = []
+            for e in elts:
+                rr = [y for y in self.eval(e, s_i) if y[2] is None]
+                if len(rr) != 1:
+                    return None
+                s_i = rr[0][0]
+                vals.append(rr[0][1])
+            if s_i.trace:
+                return None          # not pure: keep the symbolic form
+            if keep:
+                rows.append(vals)
+        if ckind == 'list':
+            return ('list', tuple(('item', r[0]) for r in rows))
+        if ckind == 'dict':
+            return ('dict', tuple((r[0], r[1]) for r in rows))
+        return None
 
     @staticmethod
     def _fold_comp(ckind, vals, iters, lid, conds):
